@@ -182,4 +182,114 @@ theorem absLru_get_hit {l : Lru} {disk : List Nat} {now f : Nat} {r : Int} (hh :
       exact fun hx => hg hx
     · simp [ha]
 
+/-! ### `ReleaseReaders` on the list model -/
+
+/-- the abstract effect of releasing one reader of table `f` -/
+def release1 (c : Cache) (f : Nat) : Cache := fun g => if g = f then (c g).map (· - 1) else c g
+
+theorem releaseAll_nil (c : Cache) : releaseAll c [] = c := by
+  funext g; simp only [releaseAll, List.count_nil]; cases c g <;> simp
+
+theorem releaseAll_cons (c : Cache) (f : Nat) (fs : List Nat) :
+    releaseAll c (f :: fs) = releaseAll (release1 c f) fs := by
+  funext g
+  simp only [releaseAll, release1, List.count_cons]
+  by_cases hg : g = f
+  · subst hg
+    cases c g with
+    | none => simp
+    | some r => simp; omega
+  · have : (f == g) = false := by simp [Ne.symm hg]
+    simp only [hg, ↓reduceIte, this, Bool.false_eq_true]
+    cases c g <;> simp
+
+/-- one `Get` + `release()` of the list model is the abstract release of one reference -/
+theorem absLru_release1 (l : Lru) (f : Nat) : absLru (lruRelease1 l f) = release1 (absLru l) f := by
+  unfold lruRelease1
+  cases hfind : l.find? (fun e => e.file == f) with
+  | none =>
+    funext g
+    simp only [release1]
+    by_cases hg : g = f
+    · subst hg; simp [absLru, hfind]
+    · simp [hg]
+  | some e =>
+    have hef : e.file = f := by simpa using List.find?_some hfind
+    funext g
+    by_cases hg : g = f
+    · subst hg
+      have h0 : (e.file == g) = true := by simp [hef]
+      simp only [release1, absLru, List.find?_cons, h0, ↓reduceIte, hfind, Option.map_some]
+    · have h1 : (e.file == g) = false := by simp [hef, Ne.symm hg]
+      simp only [release1, absLru, hg, ↓reduceIte, List.find?_cons, h1]
+      congr 1
+      rw [List.find?_filter]
+      congr 1
+      funext a
+      by_cases ha : a.file = g
+      · have : a.file ≠ f := fun hx => hg (ha ▸ hx)
+        simp [ha, this]
+        exact fun hx => hg hx
+      · simp [ha]
+
+/-- `ReleaseReaders` of the list model (with its `MoveToFront`s) refines the closed form `releaseAll`
+the invariant is stated with — for every list of readers, with repetitions, found or not -/
+theorem absLru_release (l : Lru) (fs : List Nat) : absLru (lruRelease l fs) = releaseAll (absLru l) fs := by
+  induction fs generalizing l with
+  | nil => simp [lruRelease, releaseAll_nil]
+  | cons f rest ih =>
+    simp only [lruRelease, List.foldl_cons] at ih ⊢
+    rw [ih (lruRelease1 l f), absLru_release1, releaseAll_cons]
+
+/-- the LRU order after one release: the entry (if cached) moves to the front, the others keep
+their relative order; an uncached name changes nothing -/
+theorem lruOrder_release1 (l : Lru) (f : Nat) :
+    lruOrder (lruRelease1 l f) = if f ∈ lruOrder l then f :: (lruOrder l).filter (· ≠ f) else lruOrder l := by
+  unfold lruRelease1
+  cases hfind : l.find? (fun e => e.file == f) with
+  | none =>
+    have : f ∉ lruOrder l := by
+      simp only [lruOrder, List.mem_map, not_exists, not_and]
+      intro e he heq
+      have := List.find?_eq_none.mp hfind e he
+      simp [heq] at this
+    simp [this]
+  | some e =>
+    have hef : e.file = f := by simpa using List.find?_some hfind
+    have hmem : f ∈ lruOrder l := by
+      simp only [lruOrder, List.mem_map]
+      exact ⟨e, List.mem_of_find?_eq_some hfind, hef⟩
+    rw [if_pos hmem]
+    simp only [lruOrder, List.map_cons, hef, List.filter_map]
+    congr 2
+    apply List.filter_congr
+    intro a _
+    simp only [Function.comp, bne, ne_eq, decide_not]
+    by_cases h : a.file = f <;> simp [h]
+
+theorem lruOk_release1 {l : Lru} (hl : LruOk l) (f : Nat) : LruOk (lruRelease1 l f) := by
+  have ho := lruOrder_release1 l f
+  unfold LruOk
+  have hl' : (lruOrder l).Nodup := hl
+  change (lruOrder (lruRelease1 l f)).Nodup
+  rw [ho]
+  split
+  · rw [List.nodup_cons]
+    exact ⟨by simp, List.Nodup.sublist List.filter_sublist hl'⟩
+  · exact hl'
+
+theorem lruOk_release {l : Lru} (hl : LruOk l) (fs : List Nat) : LruOk (lruRelease l fs) := by
+  induction fs generalizing l with
+  | nil => exact hl
+  | cons f rest ih =>
+    simp only [lruRelease, List.foldl_cons] at ih ⊢
+    exact ih (lruOk_release1 hl f)
+
+/-- a release never makes an entry cleanable that is still referenced: after releasing `fs`, entry `g`
+is closable by the TTL/LRU `Cleanup` only if its count reached 0 -/
+theorem release_then_walk_closes_only_idle {ttl : Int} {now : Nat} {l : Lru} (hl : LruOk l) (fs : List Nat) :
+    (lruClosed ttl now (lruRelease l fs)).all (canClean (releaseAll (absLru l) fs)) = true := by
+  rw [← absLru_release]
+  exact lruClosed_idle (lruOk_release hl fs)
+
 end LinVerif.Lemmas.C02
